@@ -448,7 +448,7 @@ Definition desired_result (wid : nat) (rt : rtask) (boxes : list (nat * mbox))
 (* the `for mailbox_id in self._active_task.owned_mailboxes:` loop of _process_task_completion.  Python iterates
    by index over the list object that Worker.cancel mutates (owned_mailboxes.remove): position i is re-read from the
    current list on every iteration. *)
-Fixpoint completion_loop (fuel : nat) (wid : nat) (i : nat) (s : cst) : option cst :=
+Fixpoint completion_loop_py (fuel : nat) (wid : nat) (i : nat) (s : cst) : option cst :=
   match fuel with
   | 0 => Some s
   | S fuel' =>
@@ -458,16 +458,42 @@ Fixpoint completion_loop (fuel : nat) (wid : nat) (i : nat) (s : cst) : option c
       match lookup_b mb (c_boxes s) with
       | Some box =>
         if box_ready box
-        then completion_loop fuel' wid (S i)
+        then completion_loop_py fuel' wid (S i)
                (mkC (remove_b mb (c_boxes s)) (c_counter s) (c_rt s) (c_out s) (c_lab s))
         else match do_cancel wid mb s with
              | None => None
-             | Some s1 => completion_loop fuel' wid (S i) s1
+             | Some s1 => completion_loop_py fuel' wid (S i) s1
              end
       | None => None          (* Worker.cancel: KeyError *)
       end
     end
   end.
+
+(* the repaired loop (fixes/D14.patch: `for mailbox_id in list(owned_mailboxes)`): iterates over a snapshot *)
+Fixpoint completion_loop_copy (wid : nat) (l : list nat) (s : cst) : option cst :=
+  match l with
+  | [] => Some s
+  | mb :: r =>
+      match lookup_b mb (c_boxes s) with
+      | Some box =>
+        if box_ready box
+        then completion_loop_copy wid r (mkC (remove_b mb (c_boxes s)) (c_counter s) (c_rt s) (c_out s) (c_lab s))
+        else match do_cancel wid mb s with
+             | None => None
+             | Some s1 => completion_loop_copy wid r s1
+             end
+      | None => None
+      end
+  end.
+
+(* Everything from here on is parametrised by [fx]: false = the loop as it is in /repo (D14), true = the loop of
+   fixes/D14.patch.  The harness selects the variant by probing the implementation; the theorems hold for both. *)
+Section Fix.
+Variable fx : bool.
+
+Definition completion (wid : nat) (s : cst) : option cst :=
+  if fx then completion_loop_copy wid (rt_owned (c_rt s)) s
+  else completion_loop_py (length (rt_owned (c_rt s))) wid 0 s.
 
 Definition reset_await (rt : rtask) : rtask :=      (* RuntimeTask.step: wake_on_next = False; desired_box_id = None *)
   mkRt (rt_task rt) (rt_pc rt) (rt_futs rt) (rt_owned rt) None false.
@@ -529,8 +555,7 @@ Definition wstep (P : progs) (w0 : wstate) : option (wstate * list msg * list la
             | None => None
             | Some (w2, out2, lab2) =>
               let w3 := set_tasks (remove_t a (w_tasks w2)) w2 in
-              match completion_loop (length (rt_owned (c_rt s))) wid 0
-                      (mkC (w_boxes w3) (w_counter w3) (c_rt s) out2 lab2) with
+              match completion wid (mkC (w_boxes w3) (w_counter w3) (c_rt s) out2 lab2) with
               | None => None
               | Some s2 =>
                   Some (set_boxes (c_boxes s2) w3, c_out s2,
@@ -887,6 +912,8 @@ Fixpoint run (P : progs) (s : sys) (evs : list event) : option (sys * list label
           end
       end
   end.
+
+End Fix.
 
 (* ---------------------------------------------------------------- observations used by the statements *)
 (* a SUBMIT(_BATCH) that is about to be handled by worker w although an ancestor-or-self of one of its tasks is
